@@ -85,11 +85,11 @@ theorem posts_delivered_partial (k d : Nat) (hk : k < 2 ^ 32) (hd : d < 2 ^ 32) 
 
 /-! ## worker: the state was STOPPED until the new thread stored RUNNING -/
 
-/-- `async_worker_create` as it was -/
-def create : Wk := { state := .stopped }
+/-- `async_worker_create` as it was: STOPPED stored, then the thread started -/
+def prog : List CrAct := [.store .stopped, .spawn]
 
-/-- a join(50) issued before the new thread has run -/
-def joinEarly : WSys := { w := create, t := 50 }
+/-- a join(50) issued right after create returned, before the new thread has run -/
+def joinEarly : WSys := WSys.startWith prog 50 [.creator, .creator]
 
 /-- full statement on the old code: the joining thread is inside the untimed `pthread_join` only when the
     worker thread is past the user procedure -/
@@ -111,35 +111,103 @@ theorem not_timedJoinBoundedFull : ¬ TimedJoinBoundedFull := by
     timeout notwithstanding): whatever else is scheduled, the join does not come back -/
 theorem join_hangs (acts : List WAct) (h : ∀ a ∈ acts, a ≠ .thread true) :
     ((joinEarly.run [.ctl]).run acts).pc = .pjoin := by
-  suffices H : ∀ (acts : List WAct) (s : WSys), (∀ a ∈ acts, a ≠ .thread true) → s.pc = .pjoin →
+  suffices H : ∀ (acts : List WAct) (s : WSys), (∀ a ∈ acts, a ≠ .thread true) → s.pc = .pjoin → s.creator = [] →
       (s.w.th = .spawned ∨ s.w.th = .inproc) → (s.run acts).pc = .pjoin from
-    H acts _ h (by decide) (by decide)
+    H acts _ h (by decide) (by decide) (by decide)
   intro acts
   induction acts with
-  | nil => intro s _ hp _; exact hp
+  | nil => intro s _ hp _ _; exact hp
   | cons a r ih =>
-    intro s hall hp hth
+    intro s hall hp hcr hth
     have hr : ∀ a ∈ r, a ≠ .thread true := fun a ha => hall a (by simp [ha])
     have ha : a ≠ .thread true := hall a (by simp)
     simp only [WSys.run, List.foldl_cons]
-    apply ih _ hr
-    · cases a with
-      | thread b => simp [WSys.step, hp]
-      | stop => simp [WSys.step, hp]
-      | ctl =>
-        simp only [WSys.step, hp, Wk.joinStep]
-        rcases hth with h | h <;> simp [h, hp]
-    · cases a with
-      | thread b =>
-        cases b with
-        | true => exact absurd rfl ha
-        | false => rcases hth with h | h <;> simp [WSys.step, Wk.threadStep, h]
-      | stop => simpa [WSys.step, Wk.signalStop] using hth
-      | ctl =>
-        simp only [WSys.step, hp, Wk.joinStep]
-        rcases hth with h | h <;> simp [h]
+    obtain ⟨w, creator, t, pc, work⟩ := s
+    simp only at hp hcr hth
+    subst hp hcr
+    cases a with
+    | creator => exact ih _ hr rfl rfl hth
+    | stop => exact ih _ hr rfl rfl hth
+    | thread b =>
+      cases b with
+      | true => exact absurd rfl ha
+      | false =>
+        apply ih _ hr rfl rfl
+        rcases hth with h | h <;> simp [WSys.step, Wk.threadStep, h]
+    | ctl =>
+      have hne : w.th ≠ .exited := by rcases hth with h | h <;> simp [h]
+      have : WSys.step ⟨w, [], t, .pjoin, work⟩ .ctl = ⟨w, [], t, .pjoin, work⟩ := by
+        simp [WSys.step, Wk.joinStep, hne]
+      rw [this]
+      exact ih _ hr rfl rfl hth
 
 end NV.C19.Old
+
+/-! ## `async_worker_create` with its RUNNING store BEHIND the `pthread_create` call -/
+
+namespace NV.C19.LateStore
+
+def prog : List CrAct := [.spawn, .store .running]
+
+/-- the creator starts the thread and is preempted; the short-lived worker runs to its end (stores RUNNING, its
+    procedure returns, stores STOPPED, exits); then the creator's store arrives -/
+def pre : List WAct := [.creator, .thread true, .thread true, .thread true, .thread true, .creator]
+
+/-- witness: the thread is gone, the state says RUNNING -/
+theorem state_stuck_running :
+    (WSys.startWith prog 50 pre).w.th = .exited ∧ (WSys.startWith prog 50 pre).w.state = .running ∧
+    (WSys.startWith prog 50 pre).creator = [] := by decide
+
+/-- …for ever: nobody is left to store anything -/
+theorem stuck_forever (acts : List WAct) : ((WSys.startWith prog 50 pre).run acts).w.state = .running := by
+  suffices H : ∀ (acts : List WAct) (s : WSys), s.creator = [] → s.w.th = .exited → s.w.state = .running →
+      (s.run acts).w.state = .running from H acts _ (by decide) (by decide) (by decide)
+  intro acts
+  induction acts with
+  | nil => intro s _ _ h; exact h
+  | cons a r ih =>
+    intro s hc hth hst
+    simp only [WSys.run, List.foldl_cons]
+    obtain ⟨w, creator, t, pc, work⟩ := s
+    simp only at hc hth hst
+    subst hc
+    cases a with
+    | creator => exact ih _ rfl hth hst
+    | stop => exact ih _ rfl hth hst
+    | thread b => exact ih _ rfl (by simp [WSys.step, Wk.threadStep, hth]) (by simp [WSys.step, Wk.threadStep, hth, hst])
+    | ctl =>
+      apply ih
+      · simp only [WSys.step]; split
+        · rfl
+        · split
+          · rfl
+          · split <;> rfl
+      · simp only [WSys.step]; split
+        · exact hth
+        · split
+          · exact hth
+          · split <;> exact hth
+      · simp only [WSys.step]; split
+        · exact hst
+        · split
+          · exact hst
+          · split <;> exact hst
+
+/-- so a timed join on the finished worker runs to its timeout and returns false -/
+theorem join_times_out :
+    ((WSys.startWith prog 50 pre).run [.ctl, .ctl, .ctl, .ctl, .ctl, .ctl]).pc = .done false := by decide
+
+/-- the full statement (`state_eventually_stopped_after_proc_returns`) is false for this order -/
+theorem not_stateStopped :
+    ¬ (∀ (t : Nat) (pre acts : List WAct),
+        (((WSys.startWith prog t pre).run acts).w.th = .stored ∨ ((WSys.startWith prog t pre).run acts).w.th = .exited) →
+        ((WSys.startWith prog t pre).run acts).w.state = .stopped) := by
+  intro h
+  have := h 50 pre [] (by decide)
+  revert this
+  decide
+
+end NV.C19.LateStore
 
 /-! ## the "optimised" order inside `async_runtime_wait`: drain the ring first, reset the doorbell afterwards -/
 
